@@ -15,7 +15,7 @@ for d in seeded/*/; do
   props=$(python3 -c "import json;m=json.load(open('$d/meta.json'));print(' '.join([m['property']]+m.get('also_checks',[])))")
   det=""
   for p in $props; do
-    out=$(./bin/kvc check -repo $scratch -prop $p -no-evidence 2>&1); rc=$?
+    out=$(./bin/kvc check -repo $scratch -prop $p -no-evidence -no-replay 2>&1); rc=$?
     nv=$(echo "$out" | grep -c "^VIOLATION")
     if [ $rc -eq 1 ] && [ $nv -gt 0 ]; then
       first=$(echo "$out" | grep "^VIOLATION" | head -1 | sed 's#.*replay=/verif/replays/##; s#\.txt.*##')
